@@ -23,6 +23,7 @@ import (
 	"sort"
 	"strconv"
 	"strings"
+	"sync"
 	"syscall"
 	"time"
 
@@ -75,7 +76,31 @@ func cliMinifier() *minify.M {
 }
 
 // cliLib is what `minify()` computes from the bytes it read: the library output, or the original on error.
+var cliLibMemo = struct {
+	sync.Mutex
+	m map[string][2][]byte
+}{m: map[string][2][]byte{}}
+
 func cliLib(mimetype string, b []byte) (out []byte, ok bool) {
+	k := mimetype + "\x00" + string(b)
+	cliLibMemo.Lock()
+	if v, hit := cliLibMemo.m[k]; hit {
+		cliLibMemo.Unlock()
+		return v[0], v[1] != nil
+	}
+	cliLibMemo.Unlock()
+	out, ok = cliLibRaw(mimetype, b)
+	cliLibMemo.Lock()
+	if ok {
+		cliLibMemo.m[k] = [2][]byte{out, {1}}
+	} else {
+		cliLibMemo.m[k] = [2][]byte{out, nil}
+	}
+	cliLibMemo.Unlock()
+	return out, ok
+}
+
+func cliLibRaw(mimetype string, b []byte) (out []byte, ok bool) {
 	var w bytes.Buffer
 	var err error
 	crash := h.Safely(60*time.Second, func() {
@@ -814,6 +839,42 @@ func (s *c20Scenario) dsts() map[string]bool {
 	return d
 }
 
+// c20Intended is the Go-side statement of "the complete new output" of every destination: the real library applied
+// to the original bytes of the sources (joined with the separator), task after task. Independent of the model
+// and of what the command actually wrote.
+func c20Intended(sc *c20Scenario) cliTree {
+	tree := sc.orig().clone()
+	final := cliTree{}
+	for _, t := range sc.Tasks {
+		if t.Dst == "" || t.Skip || (t.Sync && t.Srcs[0] == t.Dst) {
+			continue
+		}
+		var parts [][]byte
+		for _, s := range t.Srcs {
+			if s == "" {
+				parts = append(parts, sc.Stdin)
+			} else {
+				parts = append(parts, tree[s])
+			}
+		}
+		in := bytes.Join(parts, []byte(t.Sep))
+		out := in
+		if !t.Sync {
+			mt := cliMime(t.Srcs[0])
+			if t.Srcs[0] == "" {
+				mt = cliExtMap[strings.TrimPrefix(filepath.Ext(t.Dst), ".")]
+			}
+			out, _ = cliLib(mt, in)
+		}
+		tree[t.Dst] = out
+		final[t.Dst] = out
+		for _, a := range sc.AliasDst {
+			final[a] = out
+		}
+	}
+	return final
+}
+
 // c20SafeInv is the property, evaluated on a real directory, written independently of the Lean side.
 func c20SafeInv(orig, cur, final cliTree, inputs []string, dsts map[string]bool) (bool, string) {
 	for _, p := range inputs {
@@ -1071,6 +1132,7 @@ type c20Runner struct {
 	nDiff      map[string]int
 	suppressed int
 	gaps       int
+	intended   map[string]cliTree
 }
 
 // addDiff records a model/implementation difference, at most two per kind of difference and sixteen in all, so
@@ -1084,12 +1146,11 @@ func (r *c20Runner) addDiff(f h.Finding) {
 		k = k[:36]
 	}
 	r.nDiff[k]++
-	r.nDiff[""]++
-	if r.nDiff[k] > 2 || r.nDiff[""] > 16 {
-		r.c.R.ExcludedKnown += 0
+	if r.nDiff[k] > 2 || r.nDiff[""] >= 16 {
 		r.suppressed++
 		return
 	}
+	r.nDiff[""]++
 	r.c.R.Add(f)
 }
 
@@ -1099,8 +1160,8 @@ func (r *c20Runner) addFail(f h.Finding) {
 		r.nDiff = map[string]int{}
 	}
 	k := "fail:" + f.What
-	if len(k) > 60 {
-		k = k[:60]
+	if len(k) > 34 {
+		k = k[:34]
 	}
 	r.nDiff[k]++
 	if r.nDiff[k] > 3 {
@@ -1157,7 +1218,11 @@ func (r *c20Runner) reference(st *h.Stage, sc *c20Scenario, run *cliRun) (*cliRu
 		}
 	}
 	// the property on the final state, and "no other file modified"
-	if ok, why := c20SafeInv(sc.orig(), run.Tree, run.Tree, sc.inputs(), sc.dsts()); !ok {
+	if r.intended == nil {
+		r.intended = map[string]cliTree{}
+	}
+	r.intended[sc.Name] = c20Intended(sc)
+	if ok, why := c20SafeInv(sc.orig(), run.Tree, r.intended[sc.Name], sc.inputs(), sc.dsts()); !ok {
 		r.addFail(h.Finding{Stage: st.Name, Kind: "fail", What: "after the complete run: " + why, Input: key, Config: "tree before: " + treeStr(sc.Tree), Impl: "tree after: " + treeStr(run.Tree)})
 	}
 	if !sc.Lexical {
@@ -1576,7 +1641,8 @@ func clip(b []byte) []byte {
 // killSweep re-runs the scenario once per kill point of the reference run.
 func (r *c20Runner) killSweep(st *h.Stage, sc *c20Scenario, ref *cliRun, contract bool) error {
 	c := r.c
-	final := ref.Tree
+	final := ref.Tree               // what the reference run wrote (source of the write data for the contract check)
+	intended := r.intended[sc.Name] // "the complete new output" for SafeInv (Go oracle, not the command's own result)
 	total := len(ref.Points)
 	covered := map[int]bool{}
 	refStr := opStrings(ref.Ops)
@@ -1604,7 +1670,7 @@ func (r *c20Runner) killSweep(st *h.Stage, sc *c20Scenario, ref *cliRun, contrac
 		covered[done] = true
 		st.Count(key, true)
 		st.Tag("shape=" + strings.SplitN(sc.Name, "/", 2)[0])
-		ok, why := c20SafeInv(sc.orig(), run.Tree, final, sc.inputs(), sc.dsts())
+		ok, why := c20SafeInv(sc.orig(), run.Tree, intended, sc.inputs(), sc.dsts())
 		replay := fmt.Sprintf("cd <fresh copy of the tree> && strace -f -e trace=%s -e inject=%s minify %s", c20Trace, strings.Join(inj, " -e inject="), strings.Join(sc.Args, " "))
 		if !ok {
 			r.addFail(h.Finding{Stage: st.Name, Kind: "fail", What: "SafeInv violated after kill: " + why, Input: key,
@@ -1636,7 +1702,7 @@ func (r *c20Runner) killSweep(st *h.Stage, sc *c20Scenario, ref *cliRun, contrac
 			if ok {
 				want = "1"
 			}
-			r.ask(strings.Join([]string{"spec.c20.safeinv", hexFiles(sc.orig()), hexFiles(run.Tree), hexFiles(final), h.ListS(sc.inputs()), h.ListS(dl)}, " "),
+			r.ask(strings.Join([]string{"spec.c20.safeinv", hexFiles(sc.orig()), hexFiles(run.Tree), hexFiles(intended), h.ListS(sc.inputs()), h.ListS(dl)}, " "),
 				c20Pending{kind: "safe", sc: sc, key: key, want: want, what: why})
 		}
 		if contract && sc.Seq && treeSize(sc.Tree) < 1<<16 {
